@@ -21,8 +21,10 @@ World(n, x) ==
     LET ps  == PeerSeq(n)
         fo  == IF RandomElement(1..4) = 1 THEN SubSeqOf(ps, {RandomElement(Range(ps))}) ELSE <<>>
         bad == RandomElement({{}, {}, {RandomElement(Range(ps))}, {RandomElement(Range(ps)), RandomElement(Range(ps))}})
+        \* valid but non-numeric (unrankable) metrics: nobody, one peer, a random subset, everybody
+        nn  == RandomElement({{}, {}, {RandomElement(Range(ps))}, RandomElement(SUBSET Range(ps)), Range(ps)})
     IN [peers |-> ps, followers |-> fo, norepin |-> (n <= 4 /\ RandomElement(1..6) = 1), strat |-> "asc",
-        ms |-> [p \in Range(ps) |-> IF p \in bad THEN "bad" ELSE Vals[Pos(ps, p)]],
+        ms |-> [p \in Range(ps) |-> IF p \in bad THEN "bad" ELSE IF p \in nn THEN "nonnum" ELSE Vals[Pos(ps, p)]],
         blocks |-> << <<"d1", <<"s1", "s2">> >> >>]
 
 Rich(c, f, al, up, ex, nm, md) ==
